@@ -85,6 +85,25 @@ Theorem C13_rs_first_pass_dominating : forall (N : nat) (Sp Sj Tp Tj infl : list
     (forall i, In i (nbrs Tp Tj k) -> i = k) \/ exists i, In i (nbrs Tp Tj k) /\ i <> k /\ get r i = 1%Z.
 Proof. exact rs_first_pass_dominating. Qed.
 Print Assumptions C13_rs_first_pass_dominating.
+(* ... and therefore marks a coarse point whenever the (symmetric) strength graph has an edge *)
+Theorem C13_rs_first_pass_marks_a_coarse_point : forall (N : nat) (Sp Sj Tp Tj infl : list Z),
+  (forall i, (0 <= i < Z.of_nat N)%Z -> forall j, In j (nbrs Tp Tj i) -> (0 <= j < Z.of_nat N)%Z) ->
+  (forall i, (0 <= i < Z.of_nat N)%Z -> forall j, In j (row Sp Sj i) -> (0 <= j < Z.of_nat N)%Z) ->
+  (forall i j, (0 <= i < Z.of_nat N)%Z -> In j (nbrs Tp Tj i) -> In i (nbrs Tp Tj j)) ->
+  (forall i j, (0 <= i < Z.of_nat N)%Z -> In j (row Sp Sj i) -> In j (nbrs Tp Tj i)) ->
+  (forall i, (0 <= i < Z.of_nat N)%Z -> (0 <= get infl i)%Z) ->
+  (forall i, (0 <= i < Z.of_nat N)%Z -> (get Tp i <= get Tp (i + 1))%Z) ->
+  forall k i, (0 <= k < Z.of_nat N)%Z -> In i (nbrs Tp Tj k) -> i <> k ->
+  exists c, (0 <= c < Z.of_nat N)%Z /\ get (rs_cf_splitting (Z.of_nat N) Sp Sj Tp Tj infl) c = 1%Z.
+Proof.
+  intros N Sp Sj Tp Tj infl H1 H2 H3 H4 H5 H6 k i Hk Hi Hne.
+  destruct (rs_first_pass_independent N Sp Sj Tp Tj H1 H3 infl) as (_ & B & _).
+  destruct (B k Hk) as [Z0|Z1]; [|exists k; split; assumption].
+  destruct (rs_first_pass_dominating N Sp Sj Tp Tj infl H1 H2 H3 H4 H5 H6 k Hk Z0) as [Iso|(c & Hc & _ & Hc1)].
+  - exfalso. apply Hne. apply Iso. exact Hi.
+  - exists c. split; [apply (H1 k Hk c Hc)|exact Hc1].
+Qed.
+Print Assumptions C13_rs_first_pass_marks_a_coarse_point.
 (* the hypotheses are satisfiable and the conclusion is not vacuous: the path 0 - 1 - 2 - 3 (no diagonal) *)
 Example C13_rs_dominating_example :
   let Sp := [0; 1; 3; 5; 6]%Z in let Sj := [1; 0; 2; 1; 3; 2]%Z in let infl := [0; 0; 0; 0]%Z in
